@@ -74,6 +74,9 @@ func takeCensus() Census {
 			continue
 		}
 		g, ok := parseG(string(b))
+		if ok && strings.Contains(g.Stack, "kit.(*Run).WatchStall") {
+			continue // the child's own stall detector sleeps on a timer
+		}
 		if ok {
 			c.All = append(c.All, g)
 		}
